@@ -61,3 +61,23 @@ package benchtab
 //@   loop 1:
 //@     invariant 0 <= idx() <= rlen() && rlen() == len(result.Values) && tablesOK(b) && b.tables == old(b.tables)
 //@     invariant unchanged(b.tables, heap(builderTable), heap(builderCell), heap(float64), heap(map[TableKey]*builderCell), heap(map[benchproc.Key]struct{}), heap(benchproc.Projection), heap(benchproc.Field), heap(benchproc.keyNode), heap(*benchproc.keyNode), heap(*benchproc.Field), heap(string), heap(map[string]int), heap(map[string]string), heap(map[uint64][]*benchproc.keyNode), heap(benchfmt.Result), heap(benchfmt.Config))
+
+// NewBuilder insists that the table projection ends with the .unit field
+// (otherwise it panics: a precondition) and starts with an empty table set.
+//@ func NewBuilder(tableBy, rowBy, colBy, residue *benchproc.Projection) (b *Builder)
+//@   props C14
+//@   opt allocates
+//@   requires tableBy != nil && tableBy.root != nil && len(tableBy.root.Sub) >= 1 && tableBy.root.Sub[len(tableBy.root.Sub)-1] != nil && tableBy.root.Sub[len(tableBy.root.Sub)-1].Name == ".unit"
+//@   ensures b != nil && fresh(b) && b.tableBy == tableBy && b.rowBy == rowBy && b.colBy == colBy && b.residue == residue
+//@   ensures b.unitField == tableBy.root.Sub[len(tableBy.root.Sub)-1] && tablesOK(b) && forall k benchproc.Key :: !has(b.tables, k)
+
+// RowScaler: the common scale of exactly the centres of the row's cells.
+//@ func (t *Table) RowScaler(row benchproc.Key, unitClass benchunit.Class) (s benchunit.Scaler)
+//@   props C16
+//@   opt allocates
+//@   requires t != nil && (unitClass == 0 || unitClass == 1)
+//@   requires forall c benchproc.Key :: has(t.Cells, mkstruct(TableKey, row, c)) ==> t.Cells[mkstruct(TableKey, row, c)] != nil && !isNaN(t.Cells[mkstruct(TableKey, row, c)].Summary.Center)
+//@   loop 1:
+//@     invariant 0 <= idx() <= len(t.Cols) && unchanged() && (values == nil || fresh(values))
+//@     invariant forall j int :: 0 <= j < len(values) ==> exists i int :: 0 <= i < len(t.Cols) && has(t.Cells, mkstruct(TableKey, row, t.Cols[i])) && bits(values[j], t.Cells[mkstruct(TableKey, row, t.Cols[i])].Summary.Center) && !isNaN(values[j])
+//@     decreases len(t.Cols) - idx()
